@@ -249,22 +249,42 @@ Lemma obs_trig cs o th e :
 Proof.
   destruct e; obs_field_tac o_triggers.
 Qed.
+Lemma oi_upd_fixed i f o : o_code_fixed (oi_upd i f o) = o_code_fixed o.
+Proof. unfold oi_upd. destruct (get i (oi o)); reflexivity. Qed.
+Lemma on_upd_fixed n f o : o_code_fixed (on_upd n f o) = o_code_fixed o.
+Proof. unfold on_upd. destruct (get n (onm o)); reflexivity. Qed.
+Lemma oi_upd_trigth i f o : o_trig_th (oi_upd i f o) = o_trig_th o.
+Proof. unfold oi_upd. destruct (get i (oi o)); reflexivity. Qed.
+Lemma on_upd_trigth n f o : o_trig_th (on_upd n f o) = o_trig_th o.
+Proof. unfold on_upd. destruct (get n (onm o)); reflexivity. Qed.
+
+Ltac obs_field_tac2 P :=
+  unfold obs_step; cbn [refresh_succ];
+  cbn [fst snd];
+  try (destruct (ev_inst _ _ _) eqn:Ev);
+  try match goal with |- context[match ?b with true => _ | false => _ end] => is_var b; destruct b end;
+  unfold note_late_commit;
+  repeat match goal with |- context[if ?b then _ else _] => destruct b end;
+  cbn -[memN];
+  repeat first [rewrite oi_upd_fixed | rewrite on_upd_fixed | rewrite oi_upd_trigth | rewrite on_upd_trigth
+               | rewrite oi_upd_api | rewrite on_upd_api | rewrite oi_upd_o_th | rewrite on_upd_o_th | rewrite (fold_oi_upd_proj P) ];
+  cbn -[memN]; try reflexivity;
+  try (intros; first [apply oi_upd_o_th | apply oi_upd_fixed | apply oi_upd_trigth | apply oi_upd_api]);
+  try (match goal with Ev : ev_inst _ _ _ = _ |- _ => cbn in Ev; rewrite Ev; reflexivity end).
+
 Lemma obs_api cs o th e :
   o_api_sd_first (obs_step cs o (th, e)) =
   match e with
   | EShutdownOrder _ => o_api_sd_first o || ((match get th (o_th o) with None => true | Some _ => false end) &&
-                                             match o_triggers o with [] => true | _ => false end)
+                                             negb (o_code_fixed o))
   | _ => o_api_sd_first o end.
 Proof.
-  destruct e; try (obs_field_tac o_api_sd_first; fail).
+  destruct e; try (obs_field_tac2 o_api_sd_first; fail).
   unfold obs_step; cbn [refresh_succ]. cbn.
-  rewrite (fold_oi_upd_proj o_th), (fold_oi_upd_proj o_triggers), (fold_oi_upd_proj o_api_sd_first);
-    try (intros; first [apply oi_upd_o_th | apply oi_upd_triggers | apply oi_upd_api]).
+  rewrite (fold_oi_upd_proj o_th), (fold_oi_upd_proj o_code_fixed), (fold_oi_upd_proj o_api_sd_first);
+    try (intros; first [apply oi_upd_o_th | apply oi_upd_fixed | apply oi_upd_api]).
   reflexivity.
 Qed.
-
-
-
 
 Lemma fold_oi_upd_get (f : oinst -> oinst) l : (forall x, f (f x) = f x) ->
   forall o j, get j (oi (fold_left (fun o i => oi_upd i f o) l o)) =
@@ -377,3 +397,20 @@ Proof.
   - now apply nodup_set.
   - now rewrite on_upd_oi.
 Qed.
+(* the two fields that make "the project exit code is fixed" observable *)
+Lemma obs_trigth cs o th e :
+  o_trig_th (obs_step cs o (th, e)) =
+  match e with
+  | EExitTrigger _ => match get th (o_th o) with Some _ => th :: o_trig_th o | None => o_trig_th o end
+  | _ => o_trig_th o end.
+Proof.
+  destruct e; try (obs_field_tac2 o_trig_th; fail).
+  unfold obs_step; cbn [refresh_succ fst snd ev_inst]. destruct (get th (o_th o)); reflexivity.
+Qed.
+Lemma obs_fixed cs o th e :
+  o_code_fixed (obs_step cs o (th, e)) =
+  match e with
+  | EResume | EShutdownCall | EExitCodeSet _ => o_code_fixed o || memN th (o_trig_th o)
+  | _ => o_code_fixed o end.
+Proof. destruct e; obs_field_tac2 o_code_fixed. Qed.
+
